@@ -116,6 +116,13 @@ const (
 	// the storage holds for the issuer)
 	pAssertForgedIssuer
 	pAssertTypeOnly // client_id and client_assertion_type, but neither an assertion nor a secret
+	// credentials of BOTH kinds in one request (a client whose storage record holds a secret and a key - e.g. one that
+	// was migrated from client_secret_basic to private_key_jwt - or a caller that adds a worthless parameter of the
+	// other kind): which of the two the provider looks at must not let the kind the client is NOT registered for through
+	pBasicRightAssertBad   // Basic id:registered-secret next to a client_assertion that does not verify ("x", expired, foreign key, wrong audience)
+	pPostRightAssertBad    // client_id + registered client_secret in the form next to such an assertion
+	pBasicWrongAssertValid // Basic id:wrong-secret next to a valid, typed assertion
+	pBasicRightAssertValid // Basic id:registered-secret next to a valid, typed assertion
 	numPres
 )
 
@@ -128,6 +135,16 @@ var presNames = [numPres]string{
 	"unknown-client-basic", "unknown-client-id", "unknown-client-assertion", "basic-empty-secret",
 	"mixed:own-basic+other-client_id", "mixed:own-assertion+other-client_id", "assertion-issuer-forged-by-other-client",
 	"client_id+assertion-type-without-assertion",
+	"basic-right+assertion-worthless", "post-right+assertion-worthless", "basic-wrong+assertion-valid", "basic-right+assertion-valid",
+}
+
+// twoKinds: the presentation carries a secret AND an assertion
+func twoKinds(pres int) bool {
+	switch pres {
+	case pBasicRightAssertBad, pPostRightAssertBad, pBasicWrongAssertValid, pBasicRightAssertValid:
+		return true
+	}
+	return false
 }
 
 const coreCells = numOps * numPres * numAuth * numGrantKinds
@@ -289,6 +306,11 @@ func buildSpec(r *rand.Rand, idx int) *spec {
 	case authNone:
 		s.HasSecret, s.HasKey, s.Dual = false, false, false
 	}
+	if twoKinds(s.Pres) && s.Auth != authNone && (idx/coreCells)%4 != 3 {
+		// credentials of both kinds mostly mean something to a client whose record holds material of both kinds
+		// (every fourth visit of the cell keeps the drawn value)
+		s.Dual, s.HasSecret, s.HasKey = true, true, true
+	}
 	s.IDFlavor = 0
 	if r.IntN(6) == 0 {
 		s.IDFlavor = 1
@@ -372,7 +394,8 @@ func buildSpec(r *rand.Rand, idx int) *spec {
 	// a host-derived issuer only matters to assertions (their audience must be the issuer of THIS request); cases of one
 	// world alternate between its two host names, so whatever the provider memoises per issuer is exercised both ways
 	switch s.Pres {
-	case pAssertValid, pAssertValidWithID, pAssertWrongAud, pAssertOtherKey, pAssertExpired, pOwnAssertOtherID, pMixedAssert:
+	case pAssertValid, pAssertValidWithID, pAssertWrongAud, pAssertOtherKey, pAssertExpired, pOwnAssertOtherID, pMixedAssert,
+		pBasicRightAssertBad, pPostRightAssertBad, pBasicWrongAssertValid, pBasicRightAssertValid:
 		if r.IntN(3) == 0 {
 			s.Dyn, s.HostB = true, r.IntN(2) == 0
 		}
@@ -606,6 +629,9 @@ func oracleOneGrant(s *spec, p proof, bk int) verdict {
 			if p.wrongSecret {
 				grey("right-and-wrong-secret-together")
 			}
+			if p.badAssertion || p.validAssertion {
+				grey("right-secret-next-to-an-assertion")
+			}
 			// "correct secret via Basic or - if enabled - POST": a secret that travels only in the form while the provider
 			// has client_secret_post disabled is not an authentication
 			if !p.rightViaBasic && !s.Post {
@@ -632,8 +658,13 @@ func oracleOneGrant(s *spec, p proof, bk int) verdict {
 			default:
 				add("no-credential")
 			}
-		} else if !s.PKJWT {
-			grey(opNames[s.Op] + ":valid-assertion-while-private_key_jwt-disabled")
+		} else {
+			if !s.PKJWT {
+				grey(opNames[s.Op] + ":valid-assertion-while-private_key_jwt-disabled")
+			}
+			if p.rightSecret || p.wrongSecret {
+				grey("valid-assertion-next-to-a-secret")
+			}
 		}
 	case authNone:
 		if s.Op == opCC || s.Op == opIntrospect {
